@@ -65,6 +65,7 @@ def run(c):
 
     state = {"n": 0}
     model_in = {}
+    family_cov = {}
 
     OBJECT_KINDS = ["Func", "Var", "Const", "TypeName", "Label", "PkgName", "Builtin", "Nil"]
     SINK_PATTERNS = ["int", "int64", "interface{}", "string"]
@@ -224,9 +225,12 @@ def run(c):
         c.coverage["edge_text_model_cases"] = c.coverage.get("edge_text_model_cases", 0) + len(cases)
 
     def observe(alias, only=None):
-        args = ["-tmp", os.path.join(c.work, "tmp")]
+        args = ["-tmp", os.path.join(c.work, "tmp" + alias)]
         if alias == "0":
             args += ["-edges"]     # Text on captures at the edges of files: the text of a capture does not depend on the alias mode
+            args += ["-families", "defs,subpat"]   # declaring identifiers, Contains() sub-patterns of every root kind: no types involved
+        else:
+            args += ["-families", "tpat"]          # type patterns with variables (the catalogue has an alias among its element types)
         if only:
             args += ["-only", only]
         rc, out = c.run_harness(hb, args, timeout=1200, env={"GODEBUG": "gotypesalias=%s" % alias})
@@ -237,6 +241,10 @@ def run(c):
                            [json.loads(l) for l in out.splitlines() if l.startswith('{') and '"k":"gsink"' in l])
         model_in[("edgefiles", alias)] = [json.loads(l) for l in out.splitlines() if l.startswith('{') and '"k":"edgefile"' in l]
         model_in[("impfiles", alias)] = [json.loads(l) for l in out.splitlines() if l.startswith('{"index"') or (l.startswith('{') and '"k":"impfile"' in l)]
+        for l in out.splitlines():
+            if l.startswith('{') and '-cov"' in l[:40]:
+                d = json.loads(l)
+                family_cov[d["k"]] = d
         return rules
 
     def expected(o):
@@ -288,6 +296,7 @@ def run(c):
                        input=inp, observed=r.get("load_err") or r.get("panic"), expected="a verdict per probe site")
                 continue
             ctor = r["ctor"]
+            c.count(r.get("elided_no", 0))
             for o in r["obs"]:
                 c.count()
                 exp = expected(o)
@@ -312,7 +321,7 @@ def run(c):
                            "analysed from memory with nothing saved at its path)" % r["name"], input=site,
                            expected={"as on the saved file": o["verdict"]}, observed={"in memory": o["detached"]})
                 # K tuple
-                if r["kind"] in ("list", "tail", "stmt", "single", "first", "second", "seq", "pair", "file", "imports", "dollar", "edge") and ctor in lifted:
+                if r["kind"] in ("list", "tail", "stmt", "single", "first", "second", "seq", "pair", "file", "imports", "dollar", "edge", "tpat", "defs", "subpat") and ctor in lifted:
                     shape = {"one": 0, "exprstmt": 1, "stmt": 2, "list": 3}.get(o["shape"])
                     if shape is None or 2 in o["facts"]:
                         continue
@@ -365,8 +374,11 @@ def run(c):
         for k in keys[len(keys) // 2:len(keys) // 2 + 2]:
             c.sample({"ctor": k[0], "shape": k[1], "facts": list(k[2]), "verdict": k[5], "site": tuples[k].get("site")})
 
+    from concurrent.futures import ThreadPoolExecutor
+    with ThreadPoolExecutor(2) as ex:      # the two alias modes are observed side by side (own scratch directories)
+        observed = dict(zip(("0", "1"), ex.map(observe, ("0", "1"))))
     for alias in ("0", "1"):
-        rules = observe(alias)
+        rules = observed[alias]
         c.log("observed %d rules (gotypesalias=%s)" % (len(rules), alias))
         compare(rules, alias)
         compare_helpers(rules, alias)
@@ -380,6 +392,32 @@ def run(c):
     if missing and g2:
         c.obligation("harness-sanity:list-capture-catalogue", False,
                      "constructors with a `$*xs` branch for which the catalogue has no list of some deciding-element class: %r" % missing)
+    # ---- the located families (harness/cmd/c02/{tpat,defs,subpat}.go): what their catalogues must contain
+    if g2:
+        tp = family_cov.get("tpat-cov", {})
+        cells = tp.get("told_apart", {})
+        weak = sorted(k for k, v in cells.items() if not v)
+        if not cells or weak or len(cells) < 11:
+            c.obligation("harness-sanity:type-pattern-catalogue", False,
+                         "the type-pattern catalogue must tell the reference (all assignments of the variables) from every wrong matcher "
+                         "(bindings never undone, only the shortest / longest `$*_` run) in parameter, result and field lists; "
+                         "cells: %r, empty: %r" % (cells, weak))
+        df = family_cov.get("defs-cov", {}).get("roles", {})
+        need = ["declares " + k for k in ("Var", "Func", "Const", "TypeName", "Label")] + ["declares no object none", "refers to Var", "refers to Func", "refers to PkgName", "refers to Label"]
+        miss = [k for k in need if not df.get(k)]
+        if miss:
+            c.obligation("harness-sanity:declaring-identifier-catalogue", False, "no captured identifier that %r (have %r)" % (miss, df))
+        sp = family_cov.get("subpat-cov", {})
+        kinds = sp.get("root_kinds", {})
+        need = ["statement run", "expression run", "expression run over captured variables", "range clause", "range header", "expression", "statement", "declaration", "type expression"]
+        miss = [k for k in need if not kinds.get(k)]
+        onesided = sorted(k for k, v in sp.get("sites_yes_no", {}).items() if not (v[0] and v[1]))
+        if miss or onesided or not sp:
+            c.obligation("harness-sanity:contains-subpattern-catalogue", False,
+                         "Contains() sub-patterns: root kinds without a sub-pattern %r; sub-patterns without both a capture that contains a match and one that does not %r" % (miss, onesided))
+        c.coverage["type_pattern_catalogue"] = {"patterns": tp.get("patterns"), "types": tp.get("types"), "told_apart_from_wrong_matchers": cells}
+        c.coverage["declaring_identifier_roles"] = df
+        c.coverage["contains_subpattern_root_kinds"] = kinds
     c.coverage["gotypesalias_modes"] = 2
     c.coverage["exhaustive"] = False
     c.coverage["constructors_with_list_branch"] = sorted(k for k, v in lifted.items() if v)
